@@ -4,6 +4,8 @@
 //!
 //! Case k < N: catalogue term k (one script per term, all routes, >= 32 values).
 //! Case N + j: context struct j (24 field orders x 3 families).
+//! Case N + 52 + j: scalar type j of the forwarding class (see `fwd.rs`): the script
+//! passes a value it loaded / matched / computed on to a registered function.
 //!
 //! Oracle: identity (the equality of the term: structural, floats bitwise,
 //! NaN == NaN); for the constructing routes Rust's own constructors; the drop-
@@ -12,6 +14,7 @@
 use roto::{Library, NoCtx, Package, Runtime};
 
 use super::ctx;
+use super::fwd;
 use super::{Desc, Got, Mon, Shape, TermEntry, catalogue, pos_params, term_json};
 use crate::exec;
 use crate::host;
@@ -24,6 +27,8 @@ pub struct Boundary {
     cat: Vec<TermEntry>,
     rt: Runtime<NoCtx>,
     ctxs: Vec<ctx::Runner>,
+    /// the scalar types of the forwarding class (`fwd.rs`)
+    fwds: Vec<fwd::ScalarEntry>,
 }
 
 /// One route of a term: script function, shape, expected host calls.
@@ -38,8 +43,9 @@ struct Route {
 impl Boundary {
     pub fn new(_args: &Args) -> Boundary {
         let cat = catalogue();
-        let rt = super::runtime(&cat);
-        Boundary { cat, rt, ctxs: ctx::runners() }
+        let mut rt = super::runtime(&cat);
+        rt.add(fwd::lib()).expect("harness: forwarding library registers");
+        Boundary { cat, rt, ctxs: ctx::runners(), fwds: fwd::scalars() }
     }
 
     fn routes(&self, t: &TermEntry) -> Vec<Route> {
@@ -344,7 +350,7 @@ impl Boundary {
 
 impl Family for Boundary {
     fn n_cases(&self, _args: &Args) -> u64 {
-        (self.cat.len() + self.ctxs.len()) as u64
+        (self.cat.len() + self.ctxs.len() + self.fwds.len()) as u64
     }
 
     fn run(&mut self, k: u64, rng: &mut Rng, args: &Args) -> CaseOut {
@@ -359,6 +365,8 @@ impl Family for Boundary {
             self.term_case(t, &mut out, args);
         } else if k - self.cat.len() < self.ctxs.len() {
             self.ctx_case(k - self.cat.len(), &mut out, args);
+        } else if let Some(f) = self.fwds.get(k - self.cat.len() - self.ctxs.len()) {
+            (f.run)(&fwd::Env { rt: &self.rt }, &mut out, args);
         } else {
             out.skipped = Some("no-such-case".into());
         }
@@ -374,7 +382,11 @@ impl Family for Boundary {
                 let src: String = self.routes(t).iter().map(|r| r.src.clone()).collect::<Vec<_>>().join("\n");
                 J::obj().set("kind", "term").set("term", term_json(t)).set("source", src)
             }
-            None => J::obj().set("kind", "context").set("index", k - self.cat.len()),
+            None if k - self.cat.len() < self.ctxs.len() => J::obj().set("kind", "context").set("index", k - self.cat.len()),
+            None => {
+                let f = self.fwds.get(k - self.cat.len() - self.ctxs.len())?;
+                J::obj().set("kind", "forward").set("type", f.name).set("source", (f.script)())
+            }
         })
     }
 }
